@@ -36,6 +36,8 @@ func (a Act) num(k string) int {
 type simRev struct {
 	Name, Tmpl, Owner string
 	Num, Created      int64
+	Marker            bool
+	Sel               *bool
 }
 
 type simSet struct {
@@ -80,7 +82,15 @@ func (w *World) loadSimInit(a Act) {
 		HistLimit: s.HistLimit, Gen: s.Gen, ObsGen: int64(s.Status.ObsGen), StReplicas: s.Status.Replicas, StReady: s.Status.Ready,
 		StCurrent: s.Status.Current, StUpdated: s.Status.Updated, CurRev: s.Status.CurRev, UpdRev: s.Status.UpdRev, Collisions: s.Status.Collisions}
 	for _, r := range in.Revs {
-		sc.Revs = append(sc.Revs, RevSpec{Name: r.Name, Tmpl: r.Tmpl, Num: r.Num, Created: 100 + r.Created, Owner: "self"})
+		owner := r.Owner
+		if owner == "other" {
+			owner = "builtin"
+		}
+		if owner == "" {
+			owner = "self"
+		}
+		sc.Revs = append(sc.Revs, RevSpec{Name: r.Name, Tmpl: r.Tmpl, Num: r.Num, Created: 100 + r.Created, Owner: owner,
+			Marker: r.Marker, NoSel: r.Sel != nil && !*r.Sel})
 	}
 	w.Load(sc)
 }
@@ -139,6 +149,9 @@ func (w *World) apply(a Act) (ok bool, rec map[string]interface{}) {
 		owner, _ := pod["owner"].(string)
 		ready, _ := pod["ready"].(bool)
 		term, _ := pod["term"].(bool)
+		if owner == "other" {
+			owner = "builtin"
+		}
 		p := w.BuildPod(set, PodSpec{Ord: o, Phase: ph, Ready: ready, Term: term, Rev: rev, Owner: owner}, 0)
 		e.api.Put(RPods, p)
 		e.podIdx.Add(e.apiPod(p.Name).DeepCopy())
@@ -203,6 +216,30 @@ func (w *World) apply(a Act) (ok bool, rec map[string]interface{}) {
 			p.DeletionTimestamp = &now
 			e.api.Put(RPods, p)
 		}
+		return true, nil
+	case "GCOrphanPod":
+		p := e.apiPod(w.podName(o))
+		if p == nil || ownerClass(p, e.apiSet(simName)) != "other" {
+			return false, nil
+		}
+		p = p.DeepCopy()
+		p.OwnerReferences = nil
+		e.api.Put(RPods, p)
+		return true, nil
+	case "GCOrphanRev":
+		// k is the position in the API's list order (sorted by real name), as in the logged state
+		names := e.api.Names(RRev)
+		k := a.num("k")
+		if k < 1 || k > len(names) {
+			return false, nil
+		}
+		r := e.apiRev(names[k-1])
+		if ownerClass(r, e.apiSet(simName)) != "other" {
+			return false, nil
+		}
+		r = r.DeepCopy()
+		r.OwnerReferences = nil
+		e.api.Put(RRev, r)
 		return true, nil
 	case "SetReplicas":
 		r := int32(a.num("r"))
@@ -344,6 +381,7 @@ func (w *World) run(b *Behaviour, strip string, maxRounds int) *simOut {
 	// the fair tail: the user has stopped (and lifted the pause), faults have stopped, caches catch up, the
 	// kubelet makes every pod Running and Ready and removes terminating ones, the controller keeps reconciling
 	w.apply(Act{"act": "Unpause"})
+	w.gcAll() // the garbage collector finishes orphaning the dependents of a deleted built-in set
 	prev := ""
 	for r := 0; r < maxRounds; r++ {
 		w.e.CacheSyncAll(false)
@@ -367,7 +405,7 @@ func (w *World) run(b *Behaviour, strip string, maxRounds int) *simOut {
 }
 
 // randomBehaviour: the seeded driver that needs no help from TLC: it samples actions whose guard holds in the real world.
-func (w *World) randomBehaviour(r *rand.Rand, maxOrd, depth int, id string) *Behaviour {
+func (w *World) randomBehaviour(r *rand.Rand, maxOrd, depth int, id string, migration bool) *Behaviour {
 	b := &Behaviour{ID: id}
 	tm := []string{"t0", "t1", "t2"}
 	in := &simInit{}
@@ -390,11 +428,17 @@ func (w *World) randomBehaviour(r *rand.Rand, maxOrd, depth int, id string) *Beh
 	s.Tmpl = tm[r.Intn(3)]
 	s.HistLimit, s.Gen = int32(r.Intn(3)), 1
 	nrev := r.Intn(3)
+	if migration {
+		nrev = 1 + r.Intn(2)
+	}
 	perm := r.Perm(3)
 	for k := 0; k < nrev; k++ {
 		in.Revs = append(in.Revs, simRev{Name: tm[perm[k]] + ".0", Tmpl: tm[perm[k]], Num: int64(k + 1), Created: int64(k + 1), Owner: "self"})
 	}
-	if nrev > 0 && r.Intn(2) == 0 {
+	if migration {
+		s.Tmpl = in.Revs[nrev-1].Tmpl
+	}
+	if nrev > 0 && (migration || r.Intn(2) == 0) {
 		s.Status.CurRev = in.Revs[0].Name
 		s.Status.UpdRev = in.Revs[nrev-1].Name
 	}
@@ -410,7 +454,12 @@ func (w *World) randomBehaviour(r *rand.Rand, maxOrd, depth int, id string) *Beh
 		json.Unmarshal(sb, &sm)
 		revs := []interface{}{}
 		for _, r := range in.Revs {
-			revs = append(revs, map[string]interface{}{"name": r.Name, "tmpl": r.Tmpl, "num": float64(r.Num), "created": float64(r.Created), "owner": "self"})
+			if migration {
+				revs = append(revs, map[string]interface{}{"name": r.Name, "tmpl": r.Tmpl, "num": float64(r.Num), "created": float64(r.Created),
+					"owner": "other", "marker": true, "sel": false})
+			} else {
+				revs = append(revs, map[string]interface{}{"name": r.Name, "tmpl": r.Tmpl, "num": float64(r.Num), "created": float64(r.Created), "owner": "self"})
+			}
 		}
 		b.Acts = append(b.Acts, Act{"act": "Setup", "set": sm, "revs": revs})
 	}
@@ -421,6 +470,10 @@ func (w *World) randomBehaviour(r *rand.Rand, maxOrd, depth int, id string) *Beh
 			ph := phases[r.Intn(4)]
 			pod = map[string]interface{}{"present": true, "phase": ph, "ready": ph == "Running" && r.Intn(2) == 0,
 				"term": ph != "Pending" && r.Intn(4) == 0, "rev": in.Revs[r.Intn(nrev)].Name, "owner": []string{"self", "self", "none"}[r.Intn(3)]}
+			if migration {
+				pod["phase"], pod["term"], pod["owner"] = "Running", false, "other"
+				pod["ready"] = r.Intn(3) > 0
+			}
 			if ph == "Failed" && !desiredContains(int(s.Replicas), s.Slots, o) {
 				pod["phase"] = "Running" // the fairness premise of C02
 			}
@@ -428,6 +481,9 @@ func (w *World) randomBehaviour(r *rand.Rand, maxOrd, depth int, id string) *Beh
 		b.Acts = append(b.Acts, Act{"act": "Scramble", "o": float64(o), "pod": pod})
 	}
 	edits, faults, fails := 3, 2, 2
+	if migration {
+		edits = 0 // the property speaks about the reconciles after a migration, not about later edits
+	}
 	kinds := [][]interface{}{{"ServerError", false, false}, {"Conflict", false, false}, {"NotFound", false, false}, {"Timeout", true, false},
 		{"Timeout", false, false}, {"AlreadyExists", false, false}, {"Die", false, true}, {"Die", true, true}}
 	for len(b.Acts) < depth {
@@ -455,6 +511,12 @@ func (w *World) randomBehaviour(r *rand.Rand, maxOrd, depth int, id string) *Beh
 			a = Act{"act": "PodReady", "o": o}
 		case x < 15:
 			a = Act{"act": "FinishTerminating", "o": o}
+		case migration && x >= 16 && x < 19:
+			if r.Intn(2) == 0 {
+				a = Act{"act": "GCOrphanPod", "o": o}
+			} else {
+				a = Act{"act": "GCOrphanRev", "k": float64(1 + r.Intn(3))}
+			}
 		case x < 16 && fails > 0:
 			a = Act{"act": []string{"PodUnready", "PodFail"}[r.Intn(2)], "o": o}
 			fails--
@@ -569,6 +631,7 @@ func cmdSim(args []string) {
 	workers := fs.Int("workers", 16, "")
 	rounds := fs.Int("rounds", 60, "bound of the fair tail")
 	twins := fs.Bool("twins", true, "also run the fault-free and the never-paused twin of every behaviour")
+	migration := fs.Bool("migration", false, "random behaviours start from a freshly migrated set (pods and revisions still owned by the built-in set)")
 	out := fs.String("out", "", "")
 	fs.Parse(args)
 	os.MkdirAll(*out, 0o755)
@@ -615,7 +678,7 @@ func cmdSim(args []string) {
 				if i < len(behs) {
 					b = behs[i]
 				} else {
-					b = w.randomBehaviour(rnd, *maxOrd, *depth, fmt.Sprintf("rnd-%d-%d", *seed, i))
+					b = w.randomBehaviour(rnd, *maxOrd, *depth, fmt.Sprintf("rnd-%d-%d", *seed, i), *migration)
 					// drop user actions whose guard fails in the real world as the behaviour unfolds: done inside run via 'enabled'
 				}
 				o := w.runGuarded(b, "", *rounds, *maxOrd)
@@ -664,4 +727,25 @@ func cmdSim(args []string) {
 func (w *World) runGuarded(b *Behaviour, strip string, rounds, maxOrd int) *simOut {
 	w.guardMaxOrd = maxOrd
 	return w.run(b, strip, rounds)
+}
+
+// gcAll removes every owner reference that points at the (deleted) built-in StatefulSet.
+func (w *World) gcAll() {
+	e := w.e
+	for _, n := range e.api.Names(RPods) {
+		p := e.apiPod(n)
+		if ref := metav1.GetControllerOf(p); ref != nil && ref.UID == "builtin-uid" {
+			p = p.DeepCopy()
+			p.OwnerReferences = nil
+			e.api.Put(RPods, p)
+		}
+	}
+	for _, n := range e.api.Names(RRev) {
+		r := e.apiRev(n)
+		if ref := metav1.GetControllerOf(r); ref != nil && ref.UID == "builtin-uid" {
+			r = r.DeepCopy()
+			r.OwnerReferences = nil
+			e.api.Put(RRev, r)
+		}
+	}
 }
